@@ -151,7 +151,8 @@ def run_obligation(ob, pid, suite_dir, root, keep):
                 res.update({"n": cl["n"], "ok": cl["ok"], "classes": cl["classes"], "internal": cl["internal"]})
                 need = ob.get("expect_classes", [])
                 missing = [c for c in need if not any(re.search(c, k) for k in cl["classes"])]
-                if cl["unwind_failed"]:
+                real_fail = [x for x in cl["failed"] if not x.get("internal")]
+                if cl["unwind_failed"] and not real_fail:
                     res["why"] = "unwinding assertion failed: %s" % cl["unwind_failed"][:3]
                 elif not cl["canary_seen"] or not cl["canary_fired"]:
                     res["why"] = "vacuity canary did not fire (contradictory requires or call does not return)"
